@@ -83,6 +83,22 @@ fn reject_one_both(ctx: &Ctx, base: &[u8], v: (u8, u8, u8), counting: bool) -> R
 	}
 	let mut g = rt::slp_read_default(base).expect_ok("slippi::read(base game)")?;
 	g.start.slippi.version = Version(v.0, v.1, v.2);
+	// ... nor on the Gecko blob (a bare Gecko List event gives a blob that is not a whole number of 512-byte blocks)
+	if rt::hash_bytes(&[v.0, v.2, v.1, 3]) % 5 == 0 {
+		let n = 1 + (rt::hash_bytes(&[v.1, v.0, v.2]) % 700) as usize;
+		g.gecko_codes = Some(peppi::game::GeckoCodes { bytes: vec![0x5a; n], actual_size: n as u32 });
+		if counting {
+			ctx.class("reject_base_odd_gecko_blob");
+		}
+	}
+	// ... nor on the stored hash (a .slpp may carry any string there)
+	g.hash = match (rt::hash_bytes(&[v.2, v.1, v.0, 9]) % 6) as usize {
+		0 | 1 => None,
+		2 => Some(String::new()),
+		3 => Some("crc:1c291ca3".into()),
+		4 => Some("xxh3:ハッシュ値なし".into()),
+		_ => Some("xxh3:0123456789abcdef".into()),
+	};
 	let d = json!({"version": [v.0, v.1, v.2], "base_variant": variant});
 	match rt::slp_write(&g) {
 		Out::Err(_) => {}
